@@ -29,7 +29,9 @@ RULE_SUFFIX = (
     ' Every case drawn by a strategy (enumerated parts run under the default) also carries an ambient record drawn with it: 0-3 '
     '-v flags on every sub-command (root logger level for direct calls) and a '
     'process TZ (none, Europe/Berlin, a POSIX rule string, America/New_York, '
-    'Asia/Jakarta, WIB-7); neither may change any result (labels ambient:*).'
+    'Asia/Jakarta, WIB-7); neither may change any result (labels ambient:*). '
+    'One more shard of every strategy-driven part (two in the thorough tier) '
+    'runs in an interpreter started with -O (label interpreter:-O).'
 )
 LEVELS = [logging.ERROR, logging.WARNING, logging.INFO, logging.DEBUG]
 DEFAULT = {'verbosity': 0, 'tz': None}
